@@ -285,6 +285,23 @@ def _equal_sigma_shortcuts(ctx, fi, it, rets, mu0, mu1, s0, s1):
                     verdict = "absolute" if default_abs else "relative"
                 else:
                     verdict = "relative" if (isinstance(atol, Form) and atol.is_zero()) else "absolute"
+        if verdict is None:
+            # both sigmas pinned to one and the same constant (s0 == 0 and s1 == 0): equal sigmas, written as two tests
+            pinned = {}
+
+            def eqs(cf):
+                ca = cf.single_atom() if isinstance(cf, Form) else None
+                if ca and ca[0] == "fn" and ca[1] == "and":
+                    for x in ca[2]:
+                        eqs(x)
+                elif ca and ca[0] == "fn" and ca[1] == "eq" and len(ca[2]) == 2:
+                    for a_, b_ in ((ca[2][0], ca[2][1]), (ca[2][1], ca[2][0])):
+                        if isinstance(b_, Form) and b_.rational() is not None and vkey_(a_) in (vkey_(s0), vkey_(s1)):
+                            pinned[vkey_(a_)] = b_.rational()
+            for cf in tests:
+                eqs(cf)
+            if vkey_(s0) in pinned and vkey_(s1) in pinned and pinned[vkey_(s0)] == pinned[vkey_(s1)]:
+                verdict = "exact"
         if verdict in ("exact", "relative"):
             ctx.holds("C13.5", fi, o.node, f"{fi.qualname}: midpoint returned for equal sigmas", "the closed form of the statement (sigmas compared exactly / relatively)")
         elif verdict == "absolute":
@@ -371,7 +388,7 @@ def rule_error_probabilities(ctx):
     from ..forms import DictV
     factor = S("M") / (2 * (S("M") - 1))
     for dec in ("hard", "soft"):
-        it = Interp(pkg, assumptions={"mode": "estimator"}, param_values={"kwargs": DictV([(Const("eye_obj"), _eye()), (Const("M"), S("M")), (Const("decision"), Const(dec))])})
+        it = Interp(pkg, assumptions={"mode": "estimator", "M": ("inst", "int")}, param_values={"kwargs": DictV([(Const("eye_obj"), _eye()), (Const("M"), S("M")), (Const("decision"), Const(dec))])})   # the order is an integer (M in {2,...,256})
         outs = it.run(fi)
         rets = [o for o in outs if o.kind == "return"]
         if len(rets) != 1 or not isinstance(rets[0].value, Form):
@@ -506,6 +523,8 @@ def _check_soft(ctx, fi, it, v, node, case, dmu, s0, s1, M, factor):
     ctx.check("C13.3", isinstance(lo, Form) and isinstance(hi, Form) and lo == -inf and hi == inf, fi, q.node, f"{case}: integration limits", "(-inf, inf)", "integration limits are not (-inf, inf)")
     I0 = Form.atom(("idx", q.result, Form.num(0)))
     want = factor * (1 - I0 / fpow(2 * PI, HALF))
+    if v != want and v == factor * mk_fn("max", [1 - I0 / fpow(2 * PI, HALF), Form.num(0)]):
+        want = v          # the symbol error probability floored at 0 (it is one; quadrature error can leave it at -1e-17)
     ctx.check("C13.3", v == want, fi, node, f"{case}: BER = M/(2(M-1))*(1 - I/sqrt(2 pi))", "prefactor and symbol->bit factor", f"returns {v!r}, not M/(2(M-1))*(1 - quad(...)[0]/sqrt(2*pi))"[:500])
 
 
